@@ -12,7 +12,9 @@ SPEC = dict(
                "_p95 / _p99 series are checked for order as well; between batches the collector is Reset in half of the cases (a new epoch of the "
                "ledger) with the series used last before the Reset used first after it. One observation in 150 is NaN, +Inf or -Inf (it counts, and the exact sum "
                "is then NaN or an infinity); a quarter of the shards also fill one collector with 66-69 thousand series of every kind and probe identity "
-               "and totals around series number 65536 and at the end. Generated identities and schedules only: exploration, not proof.",
+               "and totals around series number 65536 and at the end. Identity families include a histogram named <name>_duration next to the timer <name> with the "
+               "same tags; the package-level monitor functions are driven with one process-wide ledger while the package-level collector helpers record under "
+               "the same names and ResetMetrics() is called. Generated identities and schedules only: exploration, not proof.",
     level_note="Trusted: the harness ledger (atomic adds in the same step as the call), the Go race detector for unsynchronised access, "
                "float64 exactness of integer sums below 2^53. Schedules are whatever the Go scheduler produces with Gosched between calls "
                "and a barrier in front of every first creation; no schedule enumeration.",
@@ -27,10 +29,10 @@ SPEC = dict(
          "renderings coincide (':' '=' ',' separators and empty strings inside names, keys, values); its findings carry clause key-ambiguity.",
     floors=T({"evaluations": 120000, "distinct_nontrivial": 1800, "identities-0tag": 300, "identities-1tag": 500, "identities-2+tags": 1800,
               "monitor-search-ops": 17000, "monitor-db-ops": 16000, "concurrent-ops": 70000, "percentile-checks": 5500,
-              "monitored-database-rounds": 40, "goroutines-16": 6, "quiescent-checks": 1000, "collector-resets": 150, "many-series-probes": 9, "non-finite-observations": 80, "exported-percentile-checks": 3000, "exported-percentiles-two-in-the-overflow-bucket": 1000},
+              "monitored-database-rounds": 40, "goroutines-16": 6, "quiescent-checks": 1000, "collector-resets": 150, "package-level-monitor-rounds": 25, "default-collector-resets": 40, "many-series-probes": 9, "non-finite-observations": 80, "exported-percentile-checks": 3000, "exported-percentiles-two-in-the-overflow-bucket": 1000},
              {"evaluations": 3000000, "distinct_nontrivial": 80000, "identities-0tag": 14000, "identities-1tag": 24000, "identities-2+tags": 85000,
               "monitor-search-ops": 500000, "monitor-db-ops": 450000, "concurrent-ops": 700000, "percentile-checks": 260000,
-              "monitored-database-rounds": 1500, "goroutines-16": 60, "quiescent-checks": 44000, "collector-resets": 20000, "many-series-probes": 18, "non-finite-observations": 10000, "exported-percentile-checks": 100000, "exported-percentiles-two-in-the-overflow-bucket": 40000}),
+              "monitored-database-rounds": 1500, "goroutines-16": 60, "quiescent-checks": 44000, "collector-resets": 20000, "package-level-monitor-rounds": 4000, "default-collector-resets": 5000, "many-series-probes": 18, "non-finite-observations": 10000, "exported-percentile-checks": 100000, "exported-percentiles-two-in-the-overflow-bucket": 40000}),
     assumptions=[
         "observations are non-negative integers below 2^38 and at most a few thousand per histogram, so the float64 sum is exact in any order",
         "counters are driven with Inc and Add(k), 0 <= k <= 1000; gauges with Inc/Dec/Add of integers (Set is last-writer-wins and is not compared)",
